@@ -88,8 +88,8 @@ def oracle(case, est=None):
         if e.min_samples_ != e.n_samples_in(1):
             return f'{type(e).__name__}.min_samples_ != n_samples_in(1)'
     # rows per episode
-    for l, Xe in pykoop.split_episodes(X, episode_feature=case['ep']):
-        got = [Xt_e for ll, Xt_e in pykoop.split_episodes(Xt, episode_feature=case['ep']) if ll == l]
+    for l, Xe in st.ref_split(X, case['ep']):
+        got = [Xt_e for ll, Xt_e in st.ref_split(Xt, case['ep']) if ll == l]
         n_out = got[0].shape[0] if got else 0
         if Xe.shape[0] >= est.min_samples_ and n_out != Xe.shape[0] - est.min_samples_ + 1:
             return f'episode {l}: {Xe.shape[0]} samples -> {n_out} lifted, min_samples_={est.min_samples_}'
